@@ -1,0 +1,75 @@
+//go:build verif
+
+package corerad
+
+// Contracts for package corerad. This file contains comments only; it is read
+// by the verification-condition generator in /verif (build tag "verif") and
+// never contributes code to the binary.
+
+//@ macro validIntervals(min, max) = secs(4) <= max && max <= secs(1800) && (min == max || (secs(2) <= min && min < max))
+
+//@ func multicastDelay
+//@   requires P1: i >= 0
+//@   requires P2: validIntervals(min, max)
+//@   requires P3: r != nil
+//@   ensures E1 [C05]: result <= ceilSec(max) && (floorSec(min) <= result || (i < 3 && result == secs(16)))
+//@   ensures E2 [C05]: result > 0
+//@   ensures E3 [C05]: i < 3 ==> result <= secs(16)
+//@   ensures E4: result == floorSec(result)
+//@   opt safety [C05]
+
+//@ func (*Advertiser).multicast
+//@   ghost local requests Int
+//@   ghost local waits Int
+//@   requires P0: ctx != nil
+//@   requires P1: validIntervals(a.cfg.MinInterval, a.cfg.MaxInterval)
+//@   opt counter i
+//@   assigns ghost.now, ghost.done
+//@   loop 1 invariant I1 [C05]: i >= 0 && ghost.requests == i && ghost.waits == i
+//@   at send ipC(v): assert S1 [C05]: v == allNodesAddr && ghost.requests == ghost.waits ; ghost.requests = ghost.requests + 1
+//@   at call time.After(w): assert W1 [C05]: w <= ceilSec(max) && (floorSec(min) <= w || (ghost.waits < 3 && w == secs(16))) && w > 0 && (ghost.waits < 3 ==> w <= secs(16)) ; assert W2 [C05]: ghost.requests == ghost.waits + 1 ; ghost.waits = ghost.waits + 1
+//@   ensures X1 [C05]: isDone(ctx)
+//@   opt safety [C05]
+
+// ---------------------------------------------------------------------------
+// listener.go
+
+//@ ghost var invalid Int
+
+//@ func panicf
+//@   requires UNREACHABLE: false
+//@   opt trusted panics
+//@ func (*listener).logf
+//@   opt trusted logging
+//@ func (*Advertiser).logf
+//@   opt trusted logging
+//@ func (*Advertiser).debugf
+//@   opt trusted logging
+//@ func (*Monitor).logf
+//@   opt trusted logging
+//@ func (*Monitor).debugf
+//@   opt trusted logging
+
+//@ funcfield corerad.Metrics.MessagesReceivedInvalidTotal(v, labels)
+//@   assigns ghost.invalid
+//@   ensures M1: ghost.invalid == old(ghost.invalid) + 1
+
+//@ iface ndp.Message.Type(self) (t)
+//@ iface net.Error.Timeout(self) (r)
+
+//@ macro listenerOK(l) = l.cctx != nil && l.cctx.mm != nil && l.cctx.mm.MessagesReceivedInvalidTotal != nil && l.c != nil
+
+//@ func (*listener).receiveRetry
+//@   ghost local timeouts Int
+//@   ghost local bad Int
+//@   requires P0: ctx != nil && listenerOK(l)
+//@   assigns ghost.reads, ghost.invalid, ghost.done, ghost.now
+//@   loop 1 invariant I1 [C09,C10]: 0 <= i && i <= 5 && ghost.timeouts == i && ghost.bad >= 0
+//@   loop 1 invariant I2 [C09]: ghost.invalid == old(ghost.invalid) + ghost.bad
+//@   at call time.After(w): assert B1 [C10]: w == ms(50) * ghost.timeouts ; ghost.timeouts = ghost.timeouts + 1
+//@   at call MessagesReceivedInvalidTotal(v, labels): ghost.bad = ghost.bad + 1
+//@   ensures E1 [C09]: result2 == nil ==> cm != nil && cm.HopLimit == 255 && result0 == m && result1 == host
+//@   ensures E2 [C09,C10]: result2 == errRetriesExhausted ==> ghost.timeouts == 5
+//@   ensures E3 [C09]: ghost.invalid == old(ghost.invalid) + ghost.bad
+//@   ensures E4 [C10]: result2 != nil ==> result0 == nil
+//@   opt safety [C09,C10]
